@@ -17,7 +17,7 @@ PAGES = [
      '<meta http-equiv="Content-Type" content="text/html; charset=iso-8859-5"><p>\u043f\u0440\u0438\u0432\u0435\u0442 new</p>'.encode('koi8-r')),
 ]
 CHARSETS = ['text/html; charset=koi8-r', 'text/html; charset=utf-8', 'text/html; charset=iso-8859-1', 'text/html', 'TEXT/HTML; Charset=UTF-8',
-            'application/xhtml+xml; charset=utf-8']
+            'application/xhtml+xml; charset=utf-8', 'text/html; charset=koi8-r; boundary=x', 'text/html;charset=iso-8859-2 ;q=0.9', 'text/html; level=1; charset=koi8-r']
 OPTIONS = {
     'html_token': [[], [('include', 'all')], [('include', 'insertions')], [('include', 'deletions')], [('include', 'combined')],
                    [('content_type_options', 'nocheck')], [('content_type_options', 'ignore')], [('url_rules', 'wayback')],
